@@ -1010,7 +1010,7 @@ func c06Store(rng *fw.Rand, plane []uint8, isDark []bool, W, H, kind int, sub bo
 	return img
 }
 
-var c06SynthNames = []string{"noise-bilevel", "noise-grey", "constant", "tiny", "stripes", "checker", "bullseye", "threshold-sides", "large-noise", "large-stripes", "finder-soup"}
+var c06SynthNames = []string{"noise-bilevel", "noise-grey", "constant", "tiny", "stripes", "checker", "bullseye", "threshold-sides", "large-noise", "large-stripes", "finder-soup", "few-rectangles"}
 
 // c06Synthetic: images that are not symbols.
 func c06Synthetic(rng *fw.Rand, class int, allowLarge bool) (image.Image, string) {
@@ -1128,6 +1128,27 @@ func c06Synthetic(rng *fw.Rand, class int, allowLarge bool) (image.Image, string
 						d = ring <= 1 || ring == 3
 					}
 					set(x, y, d)
+				}
+			}
+		}
+	case 11: // one to four small dark rectangles (bars, dots, L shapes): bounding boxes that are
+		// degenerate for "pure barcode" extraction - first run wider than the box, zero width, ...
+		if rng.Bool() {
+			W, H = 4+rng.Intn(40), 4+rng.Intn(40)
+			plane, dark = make([]uint8, W*H), make([]bool, W*H)
+			for i := range plane {
+				plane[i] = 255
+			}
+		}
+		for k := 1 + rng.Intn(4); k > 0; k-- {
+			x0, y0 := rng.Intn(W), rng.Intn(H)
+			w, h := 1+rng.Intn(maxInt(1, W/2)), 1+rng.Intn(3)
+			if rng.Bool() {
+				w, h = 1+rng.Intn(3), 1+rng.Intn(maxInt(1, H/2))
+			}
+			for y := y0; y < y0+h; y++ {
+				for x := x0; x < x0+w; x++ {
+					set(x, y, true)
 				}
 			}
 		}
